@@ -27,7 +27,7 @@ const SPECIALS: &[u8] = b" \t\r\n();\"\\.@$#0159azAZ";
 const WORDS: &[&str] = &[
     "a", "b.", "@", "x\\ y", "\"q r\"", "\"\"", "IN", "in", "CH", "CLASS1", "3600", "0", "+5", "4294967296",
     "TXT", "txt", "NS", "MX", "HINFO", "CNAME", "A", "TYPE16", "TYPE65280", "\\#", "0161", "2", "10",
-    "$ORIGIN", "$TTL", "$INCLUDE", "$ttl", "a..b", "a.b", ".", "\\065", "\\.", "(", ")", ";c", "\n", "\n",
+    "$ORIGIN", "$TTL", "$INCLUDE", "$ttl", "a..b", "a\x7f", "\\a\x7f", "SVCB", "port=1", "\"alpn=h2\"", "alpn=\"h3\"", "a.b", ".", "\\065", "\\.", "(", ")", ";c", "\n", "\n",
     "\n ", "\r\n", "\t", " ", "  ", "\"", "\\", "65535", "65536", "x\"y\"", "\\@", "\\$TTL",
 ];
 
@@ -115,6 +115,8 @@ enum Rd {
     Mx(u16, Vec<Vec<u8>>),
     Hinfo(Vec<u8>, Vec<u8>),
     Generic(u16, Vec<u8>),
+    /// SVCB / HTTPS: type, priority, target, parameters (key text, value text) as written
+    Svcb(u16, u16, Vec<Vec<u8>>, Vec<(Vec<u8>, Vec<u8>)>),
 }
 
 #[derive(Clone)]
@@ -165,11 +167,30 @@ fn rand_file(rng: &mut Rng) -> Vec<Ent> {
                 };
                 last_owner = Some(owner.clone());
                 let ttl = *rng.pick(&[0u32, 5, 7, 3600, 3600, 86400]);
-                let rd = match rng.below(6) {
+                let rd = match rng.below(8) {
                     0 | 1 => Rd::Txt((0..1 + rng.below(3)).map(|_| rand_octs(rng, 0, 5)).collect()),
                     2 => Rd::Name(*rng.pick(&[2u16, 5, 12, 39]), rand_name(rng, &origins)),
                     3 => Rd::Mx(*rng.pick(&[0u16, 10, 65535]), rand_name(rng, &origins)),
                     4 => Rd::Hinfo(rand_octs(rng, 0, 4), rand_octs(rng, 0, 4)),
+                    5 | 6 => {
+                        // parameters in random order; alpn, port and private keys
+                        let mut ps: Vec<(Vec<u8>, Vec<u8>)> = vec![];
+                        if rng.chance(2, 3) {
+                            let ids: Vec<&[u8]> = vec![b"h2", b"h3", b"http/1.1", b"dot"];
+                            let n = 1 + rng.below(3) as usize;
+                            let mut v = vec![];
+                            for k in 0..n { if k > 0 { v.push(b','); } v.extend_from_slice(ids[(rng.below(4) as usize + k) % 4]); }
+                            // (repeated ids are fine for the reader)
+                            ps.push((b"alpn".to_vec(), v));
+                        }
+                        if rng.chance(1, 2) { ps.push((b"port".to_vec(), (rng.next() as u16).to_string().into_bytes())); }
+                        if rng.chance(1, 2) {
+                            let n = rng.below(5) as usize;
+                            ps.push((format!("key{}", 65280 + rng.below(9)).into_bytes(), (0..n).map(|_| b'a' + rng.below(26) as u8).collect()));
+                        }
+                        if rng.chance(1, 2) { ps.reverse(); }
+                        Rd::Svcb(*rng.pick(&[64u16, 65]), 1 + rng.below(9) as u16, rand_name(rng, &origins), ps)
+                    }
                     _ => Rd::Generic(*rng.pick(&[65280u16, 16, 1234]), { let k = rng.below(5) as usize; rng.bytes(k) }),
                 };
                 f.push(Ent::Rec { owner, ttl, rd });
@@ -282,7 +303,7 @@ fn mixed_case(rng: &mut Rng, s: &str) -> Vec<u8> {
 }
 
 fn type_tok(rng: &mut Rng, t: u16) -> Vec<u8> {
-    let m = match t { 2 => "NS", 5 => "CNAME", 12 => "PTR", 39 => "DNAME", 15 => "MX", 13 => "HINFO", 16 => "TXT", _ => "" };
+    let m = match t { 2 => "NS", 5 => "CNAME", 12 => "PTR", 39 => "DNAME", 15 => "MX", 13 => "HINFO", 16 => "TXT", 64 => "SVCB", 65 => "HTTPS", _ => "" };
     if m.is_empty() || rng.chance(1, 5) { mixed_case(rng, &format!("TYPE{}", t)) } else { mixed_case(rng, m) }
 }
 
@@ -330,7 +351,7 @@ fn render(rng: &mut Rng, f: &[Ent]) -> Vec<u8> {
                     out.extend_from_slice(&t);
                     gap(rng, &mut lay, &mut out);
                 }
-                let t = match rd { Rd::Txt(_) => 16, Rd::Name(t, _) => *t, Rd::Mx(..) => 15, Rd::Hinfo(..) => 13, Rd::Generic(t, _) => *t };
+                let t = match rd { Rd::Txt(_) => 16, Rd::Name(t, _) => *t, Rd::Mx(..) => 15, Rd::Hinfo(..) => 13, Rd::Generic(t, _) => *t, Rd::Svcb(t, ..) => *t };
                 out.extend_from_slice(&type_tok(rng, t));
                 let generic_known = matches!(rd, Rd::Generic(..));
                 match rd {
@@ -349,6 +370,21 @@ fn render(rng: &mut Rng, f: &[Ent]) -> Vec<u8> {
                         gap(rng, &mut lay, &mut out);
                         out.extend_from_slice(&str_text(rng, s));
                     },
+                    Rd::Svcb(_, prio, target, ps) => {
+                        gap(rng, &mut lay, &mut out);
+                        out.extend_from_slice(prio.to_string().as_bytes());
+                        gap(rng, &mut lay, &mut out);
+                        out.extend_from_slice(&name_text(rng, target, &origin, false));
+                        for (k, v) in ps {
+                            gap(rng, &mut lay, &mut out);
+                            // key=value | key="value" | "key=value"; an empty value needs quotes or no '='
+                            match rng.below(3) {
+                                0 if !v.is_empty() => { out.extend_from_slice(k); out.push(b'='); out.extend_from_slice(v); }
+                                1 | 0 => { out.extend_from_slice(k); out.extend_from_slice(b"=\""); out.extend_from_slice(v); out.push(b'"'); }
+                                _ => { out.push(b'"'); out.extend_from_slice(k); out.push(b'='); out.extend_from_slice(v); out.push(b'"'); }
+                            }
+                        }
+                    }
                     Rd::Generic(_, d) => {
                         gap(rng, &mut lay, &mut out);
                         out.extend_from_slice(b"\\#");
